@@ -195,7 +195,7 @@ fn run_one(h: &History, st: &mut Stats, class: &str) {
 
 pub fn run(ctx: &mut Ctx) {
     let thorough = ctx.tier == Tier::Thorough;
-    ctx.rule = "(a) exhaustive: every word of length <= 3 (quick, 4 regions) / <= 4 (thorough, 9 regions) over a 14-letter event alphabet (silent uplink; FOpts together with a port-0 payload; garbage+foreign frame; confirmed downlink; plan narrowed to one channel in the upper half of the table; requests that would empty the plan; data-rate/channel mismatch + DlChannelReq; six queued answers after a bit-flipped frame; replay + oversize; join with CFList; join with wrong-key then all-ones DLSettings/raw CFList in RX2; join timeout; 100 silent uplinks; highest uplink DR) x {nb, async, async+ClassC} x {OTAA, ABP}, each followed by 3 silent uplinks and an answered one; (b) field sweeps: for every handled MAC command every value of every field (LinkADRReq: all 256 DR/TXPower bytes x all 256 Redundancy bytes x mask patterns; RXParamSetupReq: all 256 DLSettings x frequency set; RXTimingSetupReq/TXParamSetupReq/DutyCycleReq: all 256; authentic frames of every shape incl. FOpts together with a port-0 payload and commands on ports 224/255; NewChannelReq: all 256 indices x frequency set x DrRange bytes; DlChannelReq: all 256 indices x frequency set; JoinAccept: all 256 DLSettings x RxDelay 0..15 x CFList classes), in FOpts and in port-0 payload, RX1 and RX2, OTAA and ABP, each followed by 3 silent uplinks and one uplink with an authentic downlink; (c) proptest random histories up to 12 steps mixing every frame recipe incl. >= 90-uplink silences and re-joins; regions x {nb, async, async+ClassC}. Oracle: no panic (catch_unwind), no hang (RNG draw budget per call), joined device still hands frames to the radio. Non-trivial: history with >= 1 authentic downlink carrying MAC commands or a valid JoinAccept that the reference model says is processed; distinct by hash".into();
+    ctx.rule = "(a) exhaustive: every word of length <= 3 (quick, 4 regions) / <= 4 (thorough, 9 regions) over a 14-letter event alphabet (silent uplink; FOpts together with a port-0 payload; garbage+foreign frame; confirmed downlink; plan narrowed to one channel in the upper half of the table; requests that would empty the plan; data-rate/channel mismatch + DlChannelReq; six queued answers after a bit-flipped frame; replay + oversize; join with CFList; join with wrong-key then all-ones DLSettings/raw CFList in RX2; join timeout; 100 silent uplinks; highest uplink DR) x {nb, async, async+ClassC} x {OTAA, ABP}, each followed by 3 silent uplinks and an answered one; (b) field sweeps: for every handled MAC command every value of every field (LinkADRReq: all 256 DR/TXPower bytes x all 256 Redundancy bytes x mask patterns; RXParamSetupReq: all 256 DLSettings x frequency set; RXTimingSetupReq/TXParamSetupReq/DutyCycleReq: all 256; authentic frames of every shape incl. FOpts together with a port-0 payload and commands on ports 224/255; NewChannelReq: all 256 indices x frequency set x DrRange bytes; DlChannelReq: all 256 indices x frequency set; JoinAccept: all 256 DLSettings x RxDelay 0..15 x CFList classes), in FOpts and in port-0 payload, RX1 and RX2, OTAA and ABP, each followed by 3 silent uplinks and one uplink with an authentic downlink; (d) join walks: US915/AU915 x every sub-band bias x 1..9 (non-compliant) retries x front-ends, 150..300 unanswered join attempts followed by a successful join and traffic; (c) proptest random histories up to 12 steps mixing every frame recipe incl. >= 90-uplink silences and re-joins; regions x {nb, async, async+ClassC}. Oracle: no panic (catch_unwind), no hang (RNG draw budget per call), joined device still hands frames to the radio. Non-trivial: history with >= 1 authentic downlink carrying MAC commands or a valid JoinAccept that the reference model says is processed; distinct by hash".into();
     ctx.assumptions = vec![
         "application inputs stay inside what the API documents: region-defined uplink data rates, port 0 only with empty data, payload <= 242 bytes; everything received is unrestricted".into(),
         "a rejection-sampling loop that draws more than 20000 random numbers in one API call is reported as a hang".into(),
@@ -371,6 +371,33 @@ pub fn run(ctx: &mut Ctx) {
             }
         }
     });
+    // ---- (d) join walks of the fixed plans: long runs of unanswered join attempts for every sub-band
+    // bias and retry count (the walk keeps per-sub-band bookkeeping that only such runs exhaust), then
+    // a successful join and traffic
+    let mut walks: Vec<(RegionId, FrontKind, Option<(u8, usize)>, u16)> = vec![];
+    for region in [RegionId::Us915, RegionId::Au915] {
+        for front in fronts {
+            walks.push((region, front, None, 200));
+            for sb in 1..=8u8 {
+                for retries in [1usize, 2, 3, 4, 6, 9] {
+                    if thorough || (sb as usize + retries + front as usize) % 2 == 0 {
+                        walks.push((region, front, Some((sb, retries)), if thorough { 300 } else { 150 }));
+                    }
+                }
+            }
+        }
+    }
+    ctx.parallel(|ti, n, st| {
+        for (wi, (region, front, bias, attempts)) in walks.iter().enumerate() {
+            if wi % n != ti {
+                continue;
+            }
+            let cfg = DevCfg { region: *region, join_bias: *bias, front: *front, board: (14, 0) };
+            let mut h = base_history(&cfg, true, seed ^ 0xC04D ^ wi as u64, vec![]);
+            h.steps.insert(0, Step::JoinSilence(*attempts));
+            run_one(&h, st, "join-walk");
+        }
+    });
     // ---- (a) every word up to a bounded depth over the event alphabet
     crate::props::c04_alpha::run(ctx, &regions_alpha, if thorough { 4 } else { 3 });
     // ---- (c) random histories
@@ -393,4 +420,8 @@ pub fn run(ctx: &mut Ctx) {
             st.fail(f);
         }
     });
+    // ---- cross-generator stage (see props/cross.rs)
+    ctx.rule.push_str(super::cross::CROSS_RULE);
+    let cross_cases = ctx.tier.pick(super::cross::QUICK_PER_GEN, super::cross::THOROUGH_PER_GEN);
+    super::cross::stage(ctx, "C04", cross_cases);
 }
